@@ -111,7 +111,7 @@ EdgeFull == << Zero, One, Two, FromNat(3), FromNat(9), FromNat(10), FromNat(11),
                Ten(9), Sub(Pow2(32), One), Pow2(32), Ten(18), Add(Ten(18), One), Sub(Pow2(61), One), Pow2(61), Sub(Pow2(62), One), Pow2(62),
                Sub(Pow2(63), Two), I64Max, Pow2(63), Add(Pow2(63), One), Ten(19), Sub(U64Max, One), U64Max,
                U64From8(SubSeq(Rnd32(40), 1, 8)), U64From8(SubSeq(Rnd32(41), 1, 5)) >>
-EdgeQuick == << Zero, One, FromNat(9), FromNat(10), FromNat(100), FromNat(255), Ten(9), Pow2(32), Ten(18), Pow2(61), Sub(Pow2(62), One),
+EdgeQuick == << Zero, One, FromNat(10), FromNat(255), Ten(9), Ten(18), Pow2(61), Sub(Pow2(62), One),
                 Sub(Pow2(63), Two), I64Max, Pow2(63), Ten(19), Sub(U64Max, One), U64Max, U64From8(SubSeq(Rnd32(40), 1, 8)) >>
 EdgeU64 == IF EnvNat("VERIF_THOROUGH") = 1 THEN EdgeFull ELSE EdgeQuick
 RECURSIVE DigitSum(_, _)
@@ -213,13 +213,15 @@ SmallVals == IF Thorough THEN { 0, 1, 2, 3, 4, 9, 10, 15, 16, 77, 100, 200, 255 
 SmallExps == IF Thorough THEN { -1, 0, 1, 2, 3, 18 } ELSE { -1, 0, 1 }
 SmallBits == IF Thorough THEN { 0, 1, 2, 3, 4, 5, 7, 8 } ELSE { 0, 4 }
 Grid == { << "sign", U(v), U(m), e, b, DO >> : v \in SmallVals, m \in { 0, 1, 2, 3, 4, 9, 10, 15, 16, 77, 100, 200, 255 }, e \in SmallExps, b \in SmallBits }
-GridCases == { c \in Grid : c[3] = Zero \/ c[3] = One \/ c[3] = c[2] }
+GridCases == { c \in Grid : (c[3] = Zero \/ c[3] = One \/ c[3] = c[2]) /\ (Thorough \/ c[4] >= 0 \/ c[5] = 0) }
 \* the 2^63 guards, min_value = 2^64-1, min_bits capped by clz(min_value): all refusals, and the acceptances that stay small
 BigV == { Pow2(62), Sub(Pow2(63), Two), I64Max, Pow2(63), Add(Pow2(63), One), Sub(U64Max, One), U64Max }
 BigM == { Zero, One, Pow2(62), Sub(Pow2(63), Two), I64Max, Pow2(63), U64Max }
 GuardGrid == { << "sign", v, m, e, b, DO >> : v \in BigV, m \in BigM, e \in { 0, 1, 18 }, b \in { 0, 1, 61, 62, 64 } }
          \cup { << "sign", v, m, -1, 0, DO >> : v \in BigV, m \in BigM }
-GuardCases == { c \in GuardGrid : Cheap(c[2], c[3], c[4], c[5], IF Thorough THEN 8 ELSE 1) }
+\* quick: every refusal, and the small acceptances for a third of the grid
+GuardCases == { c \in GuardGrid : LET pp == RpSignParams(c[2], c[3], c[4], c[5]) IN
+                                  ~pp.ok \/ (pp.mant <= (IF Thorough THEN 8 ELSE 1) /\ (Thorough \/ (c[5] + c[4] + Len(c[2]) + Len(c[3])) % 3 = 0)) }
 \* argument ranges
 RangeCases == { c \in { << "sign", v, m, e, b, DO >> : v \in { U(10), Ten(18) }, m \in { Zero, U(11) }, e \in { -2, -1, 0, 18, 19, 100, -100 },
                                                         b \in { -1, 0, 1, 64, 65, 1000, -1000 } } : Cheap(c[2], c[3], c[4], c[5], 2) }
@@ -259,6 +261,9 @@ OptionCases ==
 MiscCases == { << "genh" >> }
          \cup { << "maxsize", v, b >> : v \in { Zero, One, Two, U(3), U(4), U(255), U(256), Sub(Pow2(32), One), I64Max, Pow2(63), U64Max }, b \in { 0, 1, 2, 3, 8, 9, 63, 64 } }
          \cup { << "commit", v, bl, g >> : v \in { Zero, One, U64Max }, bl \in { Zero, One, Sub(N, One), N, Max256 }, g \in { 1, 2 } }
+\* development probes (cfg: Cases <- ProbeCases)
+ProbeCases == { Var(P1, DO) }
+ProbeNone == { << "genh" >> }
 Cases == GridCases \cup GuardCases \cup RangeCases \cup BigCases \cup OptionCases \cup MiscCases
 
 Expand(c) ==
